@@ -127,3 +127,37 @@ Proof.
     split; [reflexivity|]. split; reflexivity.
 Qed.
 Print Assumptions force_model_is_what_the_source_says.
+
+(* WHAT THE REGENERATED CODE DOES: momentum conservation stated about the translated blocks themselves, folded over the faces / hinges
+   as the loops of cell.cpp do (at R; the generated blocks are convertible with the model's, so the proofs are the model's): the
+   pressure forces of a closed surface, the surface-tension / elasticity forces, the angle-regularisation forces and the bending
+   forces of coherent hinges each add no net force. *)
+Theorem regenerated_pressure_adds_no_net_force : forall (nodes : list vR) (faces : list ffaceR) (P : R),
+  ValidSurface (tris_of faces) -> ids_in_range nodes (tris_of faces) -> fresh nodes faces ->
+  net_force (fold_left (pressure_face_gen NumR P) faces (zeroF (length nodes))) = mkv 0 0 0.
+Proof. exact pressure_force_zero. Qed.
+Print Assumptions regenerated_pressure_adds_no_net_force.
+
+Theorem regenerated_tension_adds_no_net_force : forall (nodes : list vR) (faces : list ffaceR) (tensions : list R) (ka iso V A : R),
+  ids_in_range nodes (tris_of faces) ->
+  net_force (fold_left (tension_face_gen NumR nodes tensions ka (target_area_gen NumR LibmRF iso V) A) faces (zeroF (length nodes))) = mkv 0 0 0.
+Proof. exact tension_force_zero. Qed.
+Print Assumptions regenerated_tension_adds_no_net_force.
+
+Theorem regenerated_angle_regularisation_adds_no_net_force : forall (pi eps dmin kreg : R) (nodes : list vR) (faces : list ffaceR),
+  ids_in_range nodes (tris_of faces) ->
+  net_force (fold_left (anglereg_face_gen NumR LibmRF pi eps dmin nodes kreg) faces (zeroF (length nodes))) = mkv 0 0 0.
+Proof. exact anglereg_force_zero. Qed.
+Print Assumptions regenerated_angle_regularisation_adds_no_net_force.
+
+Theorem regenerated_angle_gradients_sum_to_zero : forall (eps dmin : R) (i j k : vR),
+  let '(gi, gj, gk) := angle_gradient_gen NumR LibmRF eps dmin i j k in gi +v gj +v gk = mkv 0 0 0.
+Proof. exact angle_gradient_sum. Qed.
+Print Assumptions regenerated_angle_gradients_sum_to_zero.
+
+Theorem regenerated_bending_adds_no_net_force : forall (nodes : list vR) (bends : list R) (faces : list ffaceR) (hinges : list hinge),
+  ids_in_range nodes (tris_of faces) -> fresh nodes faces -> List.Forall (hinge_ok faces) hinges ->
+  net_force (if forallb (fun b => neqb NumR b 0) bends then zeroF (length nodes)
+             else fold_left (bending_hinge_gen NumR LibmRF PI nodes bends faces) hinges (zeroF (length nodes))) = mkv 0 0 0.
+Proof. exact bending_force_zero. Qed.
+Print Assumptions regenerated_bending_adds_no_net_force.
